@@ -47,8 +47,15 @@ def parse_vspec(path):
             mode[1]["entry"] = text
         elif kind == "attrs":
             mode[1]["attrs"] = text
+        elif kind == "exit":
+            mode[1]["exit"] = text
         elif kind == "loop":
             mode[1]["loops"][mode[2]] = text
+        elif kind == "exprh":
+            lines = [l for l in buf if l.strip()]
+            mode[1]["text"] = lines[0].strip() if lines else ""
+            mode[1]["sig"] = lines[1].strip() if len(lines) > 1 else ""
+            mode[1]["spec"] = "\n".join(lines[2:])
         elif kind in ("hoist", "chain"):
             lines = [l for l in buf if l.strip()]
             mode[1]["sig"] = lines[0].strip() if lines else ""
@@ -85,7 +92,7 @@ def parse_vspec(path):
                 cur_src = {"file": os.path.join(REPO, args[0]), "rel": args[0], "keep": [], "drop": [],
                            "external": [], "contracts": {}, "vec_places": [], "hoists": [],
                            "strip_derives": [], "for_rewrite": [], "chain_hoists": [],
-                           "item_stubs": {}, "macro_stubs": {}, "item_attrs": {}, "ident_renames": {}, "item_inject": {},
+                           "item_stubs": {}, "macro_stubs": {}, "item_attrs": {}, "ident_renames": {}, "item_inject": {}, "trait_sized": [], "expr_hoists": [], "inherent_copy": [],
                            "external_all": False, "verify": []}
                 unit["sources"].append(cur_src)
             elif d == "keep":
@@ -98,6 +105,10 @@ def parse_vspec(path):
                 cur_src["strip_derives"].append(rest)
             elif d == "for_rewrite":
                 cur_src["for_rewrite"].append(rest)
+            elif d == "inherent_copy":
+                cur_src["inherent_copy"].append(rest)
+            elif d == "trait_sized":
+                cur_src["trait_sized"].append(rest)
             elif d == "external_all":
                 cur_src["external_all"] = True
             elif d == "verify":
@@ -114,7 +125,7 @@ def parse_vspec(path):
                     opts.append(toks.pop())
                 key = " ".join(toks)
                 kv, flags = _kv(opts)
-                cur_contract = {"ret": kv.get("ret"), "spec": "", "entry": "", "loops": {}, "attrs": "",
+                cur_contract = {"ret": kv.get("ret"), "spec": "", "entry": "", "exit": "", "loops": {}, "attrs": "",
                                 "external": "external" in flags}
                 cur_src["contracts"][key] = cur_contract
                 unit["fn_props"][key] = [p for p in kv.get("props", "").split(",") if p]
@@ -123,6 +134,8 @@ def parse_vspec(path):
                 mode = ("entry", cur_contract)
             elif d == "attrs":
                 mode = ("attrs", cur_contract)
+            elif d == "exit":
+                mode = ("exit", cur_contract)
             elif d == "loop":
                 mode = ("loop", cur_contract, args[0])
             elif d == "hoist":
@@ -136,9 +149,16 @@ def parse_vspec(path):
                 kv, flags = _kv(args)
                 h = {"in_fn": kv["in"].replace("~", " "), "suffix": kv["suffix"], "name": kv["name"],
                      "generics": kv.get("generics", "").replace("~", " "), "by_ref": "by_ref" in flags,
-                     "sig": "", "spec": ""}
+                     "args": kv.get("args", "").replace("~", " "), "sig": "", "spec": ""}
                 cur_src["chain_hoists"].append(h)
                 mode = ("chain", h)
+            elif d == "expr":
+                kv, flags = _kv(args)
+                h = {"in_fn": kv["in"].replace("~", " "), "text": "", "name": kv["name"],
+                     "generics": kv.get("generics", "").replace("~", " "),
+                     "args": kv.get("args", "").replace("~", " "), "sig": "", "spec": ""}
+                cur_src["expr_hoists"].append(h)
+                mode = ("exprh", h)
             elif d == "item_stub":
                 mode = ("item_stub", cur_src, rest)
             elif d == "macro_stub":
@@ -185,6 +205,7 @@ HEADER = """// GENERATED by /verif/vlib/gen.py from {srcs} + specs/{unit}.vspec 
 use vstd::prelude::*;
 use std::ops::Deref;
 use std::collections::VecDeque;
+use std::iter::Enumerate;
 verus! {{
 global size_of usize == 8;
 """
